@@ -648,10 +648,15 @@ impl VirtualFileSystem for Memfs {
     /// ```
     fn all_dirs<T: AsRef<Path>>(&self, path: T) -> RvResult<Vec<PathBuf>> {
         let mut paths: Vec<PathBuf> = vec![];
-        if !self.is_dir(&path) {
-            return Err(PathError::is_not_dir(&path).into());
-        }
-        for entry in self.entries(path)?.min_depth(1).sort_by_name().dirs() {
+        // Check the target and take the snapshot under one guard so the listing is a single atomic step
+        let entries = {
+            let guard = self.read_guard();
+            if !self._is_dir(&guard, &path) {
+                return Err(PathError::is_not_dir(&path).into());
+            }
+            self._entries(&guard, path)?
+        };
+        for entry in entries.min_depth(1).sort_by_name().dirs() {
             let entry = entry?;
             paths.push(entry.path_buf());
         }
@@ -681,10 +686,15 @@ impl VirtualFileSystem for Memfs {
     /// ```
     fn all_files<T: AsRef<Path>>(&self, path: T) -> RvResult<Vec<PathBuf>> {
         let mut paths: Vec<PathBuf> = vec![];
-        if !self.is_dir(&path) {
-            return Err(PathError::is_not_dir(&path).into());
-        }
-        for entry in self.entries(path)?.min_depth(1).sort_by_name().files() {
+        // Check the target and take the snapshot under one guard so the listing is a single atomic step
+        let entries = {
+            let guard = self.read_guard();
+            if !self._is_dir(&guard, &path) {
+                return Err(PathError::is_not_dir(&path).into());
+            }
+            self._entries(&guard, path)?
+        };
+        for entry in entries.min_depth(1).sort_by_name().files() {
             let entry = entry?;
             paths.push(entry.path_buf());
         }
@@ -716,10 +726,15 @@ impl VirtualFileSystem for Memfs {
     /// ```
     fn all_paths<T: AsRef<Path>>(&self, path: T) -> RvResult<Vec<PathBuf>> {
         let mut paths: Vec<PathBuf> = vec![];
-        if !self.is_dir(&path) {
-            return Err(PathError::is_not_dir(&path).into());
-        }
-        for entry in self.entries(path)?.min_depth(1).sort_by_name() {
+        // Check the target and take the snapshot under one guard so the listing is a single atomic step
+        let entries = {
+            let guard = self.read_guard();
+            if !self._is_dir(&guard, &path) {
+                return Err(PathError::is_not_dir(&path).into());
+            }
+            self._entries(&guard, path)?
+        };
+        for entry in entries.min_depth(1).sort_by_name() {
             let entry = entry?;
             paths.push(entry.path_buf());
         }
@@ -1125,10 +1140,15 @@ impl VirtualFileSystem for Memfs {
     /// ```
     fn dirs<T: AsRef<Path>>(&self, path: T) -> RvResult<Vec<PathBuf>> {
         let mut paths: Vec<PathBuf> = vec![];
-        if !self.is_dir(&path) {
-            return Err(PathError::is_not_dir(&path).into());
-        }
-        for entry in self.entries(path)?.min_depth(1).max_depth(1).sort_by_name().dirs() {
+        // Check the target and take the snapshot under one guard so the listing is a single atomic step
+        let entries = {
+            let guard = self.read_guard();
+            if !self._is_dir(&guard, &path) {
+                return Err(PathError::is_not_dir(&path).into());
+            }
+            self._entries(&guard, path)?
+        };
+        for entry in entries.min_depth(1).max_depth(1).sort_by_name().dirs() {
             let entry = entry?;
             paths.push(entry.path_buf());
         }
@@ -1220,10 +1240,15 @@ impl VirtualFileSystem for Memfs {
     /// ```
     fn files<T: AsRef<Path>>(&self, path: T) -> RvResult<Vec<PathBuf>> {
         let mut paths: Vec<PathBuf> = vec![];
-        if !self.is_dir(&path) {
-            return Err(PathError::is_not_dir(&path).into());
-        }
-        for entry in self.entries(path)?.min_depth(1).max_depth(1).sort_by_name().files() {
+        // Check the target and take the snapshot under one guard so the listing is a single atomic step
+        let entries = {
+            let guard = self.read_guard();
+            if !self._is_dir(&guard, &path) {
+                return Err(PathError::is_not_dir(&path).into());
+            }
+            self._entries(&guard, path)?
+        };
+        for entry in entries.min_depth(1).max_depth(1).sort_by_name().files() {
             let entry = entry?;
             paths.push(entry.path_buf());
         }
@@ -1680,10 +1705,15 @@ impl VirtualFileSystem for Memfs {
     /// ```
     fn paths<T: AsRef<Path>>(&self, path: T) -> RvResult<Vec<PathBuf>> {
         let mut paths: Vec<PathBuf> = vec![];
-        if !self.is_dir(&path) {
-            return Err(PathError::is_not_dir(&path).into());
-        }
-        for entry in self.entries(path)?.min_depth(1).max_depth(1).sort_by_name() {
+        // Check the target and take the snapshot under one guard so the listing is a single atomic step
+        let entries = {
+            let guard = self.read_guard();
+            if !self._is_dir(&guard, &path) {
+                return Err(PathError::is_not_dir(&path).into());
+            }
+            self._entries(&guard, path)?
+        };
+        for entry in entries.min_depth(1).max_depth(1).sort_by_name() {
             let entry = entry?;
             paths.push(entry.path_buf());
         }
